@@ -162,7 +162,146 @@ def app_json(b, app):
     for key, cls in sorted(app.interface.classes.items()):
         if key.startswith('{') and isinstance(cls, type) and issubclass(cls, EnumBase):
             enums[tuple(cls.__values__)] = [list(cls.__values__), cls.get_namespace(), cls.get_type_name()]
-    return {'iface': b.iface, 'enums': [enums[k] for k in sorted(enums)]}
+    return {'iface': b.iface, 'enums': [enums[k] for k in sorted(enums)], 'values': values_table(b, app)}
+
+
+# ====================================================================================== `values=` on non-string primitives
+VALUE_KINDS = ('int', 'date', 'time', 'dt', 'dur')
+
+
+def _pkey(p):
+    return json.dumps({k: v for k, v in p.items() if not k.startswith('_')}, sort_keys=True)
+
+
+def values_table(b, app):
+    """the `values` facet of the non-string primitive classes in use, introspected from the live classes:
+    [[PrimTy JSON, [Val JSON ...]] ...] — one list per primitive (the model's grain)"""
+    from spyne.model import SimpleModel
+    from spyne.model.primitive import Unicode
+    from spyne.model.enum import EnumBase
+    from spyne.model.binary import ByteArray
+    table = {}
+    for key, cls in sorted(app.interface.classes.items()):
+        if not (key.startswith('{') and isinstance(cls, type) and issubclass(cls, SimpleModel)):
+            continue
+        if issubclass(cls, (Unicode, EnumBase, ByteArray)) or not cls.Attributes.values:
+            continue
+        p = xb.prim_of(b, cls)
+        ty = {'k': 'prim', 'p': p, 'o': xb.default_occ()}
+        vals = [xb.from_native_one(b, ty, v) for v in cls.Attributes.values]
+        k = _pkey(p)
+        if k in table and table[k][1] != vals:
+            raise core.Infra('generator bug: two value lists for one primitive %s' % k)
+        table[k] = [p, vals]
+    return [table[k] for k in sorted(table)]
+
+
+def _walk_prims(t, depth, out):
+    """(prim dict, array depth) of the primitive a type reference ends in"""
+    if t['k'] == 'prim':
+        out.append((t['p'], depth))
+    elif t['k'] == 'arr':
+        _walk_prims(t['elem'], depth + 1, out)
+
+
+def add_values(rng, u, prob=0.45, force_kind=None):
+    """declare `values=[...]` on one or two non-string primitives of the universe — on EVERY member whose primitive is
+    that one (the model's grain); primitives that also occur as items of nested arrays are left alone"""
+    occ = []
+    for c in u['classes']:
+        for _, t in c['own']:
+            _walk_prims(t, 0, occ)
+    for m in u['methods']:
+        for _, t in m['args']:
+            _walk_prims(t, 0, occ)
+        for t in m['rets']:
+            _walk_prims(t, 0, occ)
+    deep = set(_pkey(p) for p, d in occ if d >= 2)
+    cand = sorted(set(_pkey(p) for p, d in occ if p['t'] in VALUE_KINDS and (force_kind is None or p['t'] == force_kind)) - deep)
+    if not cand or (force_kind is None and rng.random() > prob):
+        return {}
+    chosen = rng.sample(cand, min(len(cand), rng.choice([1, 1, 2])))
+    table = {}
+    for k in chosen:
+        p = json.loads(k)
+        vals = []
+        for _ in range(rng.choice([1, 2, 3])):
+            v = xb.gen_prim_val(rng, p)
+            if v is not None and v not in vals:
+                vals.append(v)
+        if vals:
+            table[k] = vals
+    for p, d in occ:
+        if _pkey(p) in table:
+            p['_values'] = table[_pkey(p)]
+    return table
+
+
+_ORIG_BUILD_PRIM = xb.build_prim
+
+
+def _build_prim_with_values(b, p, occ):
+    vals = p.get('_values')
+    if not vals:
+        return _ORIG_BUILD_PRIM(b, p, occ)
+    from spyne.model import primitive as P
+    kw = xb._occ_kwargs(occ)
+    t = p['t']
+    if t == 'int':
+        for f in ('ge', 'gt', 'le', 'lt'):
+            if p.get(f) is not None:
+                kw[f] = int(p[f])
+        base = xb._int_classes()[p['kind']]
+    else:
+        base = {'bool': P.Boolean, 'date': P.Date, 'time': P.Time, 'dt': P.DateTime, 'dur': P.Duration}[t]
+    ty = {'k': 'prim', 'p': p, 'o': occ}
+    kw['values'] = [xb.to_native_one(b, ty, v) for v in vals]
+    return base(**kw)
+
+
+def build_classes(u):
+    """xmlblock.build_classes with `values=` honoured on the non-string primitives"""
+    xb.build_prim = _build_prim_with_values
+    try:
+        return xb.build_classes(u)
+    finally:
+        xb.build_prim = _ORIG_BUILD_PRIM
+
+
+def enforce_values(rng, ty, v, table, fields_of=None):
+    """make a generated value respect the declared `values` (xmlblock's generator does not know them)"""
+    if v is None or not isinstance(v, dict) or not table:
+        return v
+    if 'l' in v:
+        et = ty if (xb.repeated(ty['o']) and ty['k'] != 'arr') else ty.get('elem', ty)
+        return {'l': [enforce_values(rng, et, i, table, fields_of) for i in v['l']]}
+    if 'o' in v:
+        if ty['k'] != 'obj':
+            return v
+        cls, fs = v['o']
+        fields = ty['fields']
+        if cls != ty['name'] and fields_of and cls in fields_of:
+            fields = fields_of[cls]          # a subclass instance: its own (longer) member list
+        return {'o': [cls, [[k, enforce_values(rng, t, fv, table, fields_of)] for (k, t), (_, fv) in zip(fields, fs)]]}
+    if ty['k'] == 'prim' and _pkey(ty['p']) in table:
+        return rng.choice(table[_pkey(ty['p'])])
+    return v
+
+
+_CANON = {}
+
+
+def canonical_literal(b, p, text):
+    """is `text` the literal spyne itself writes for the value it denotes (round trip through the real codec)"""
+    from spyne.protocol.xml import XmlDocument
+    key = _pkey(p)
+    if key not in _CANON:
+        _CANON[key] = (_ORIG_BUILD_PRIM(b, {k: v for k, v in p.items() if not k.startswith('_')}, xb.default_occ()), XmlDocument())
+    cls, prot = _CANON[key]
+    try:
+        return prot.to_unicode(cls, prot.from_unicode(cls, text)) == text
+    except Exception:
+        return False
 
 
 # ====================================================================================== T1: facts of the generator
@@ -187,7 +326,7 @@ def measure_facts06():
     u = clamp_witness_universe()
     with warnings.catch_warnings():
         warnings.simplefilter('ignore')
-        b = xb.build_classes(u)
+        b = build_classes(u)
         app, _ = xb.make_app(b, 'xml', None)
     sch, docs = real_schema(app)
     f['qualified'] = all(d.get('elementFormDefault') == 'qualified' for d in docs.values())
@@ -200,7 +339,7 @@ def measure_facts06():
     u = merge_witness_universe()
     with warnings.catch_warnings():
         warnings.simplefilter('ignore')
-        b = xb.build_classes(u)
+        b = build_classes(u)
         app, _ = xb.make_app(b, 'xml', None)
     sch, docs = real_schema(app)
     facets = [etree_local(e) for d in docs.values() for st in d.iter('{%s}simpleType' % XS)
@@ -451,6 +590,61 @@ def leaf_literals(rng, p):
     return LEX_VARIANTS[t]
 
 
+def boundary_docs(b, root_ty, root, cap=16):
+    """directed (not sampled) neighbours of every declared bound: for each integer leaf with ge/gt/le/lt the literals
+    bound-1, bound, bound+1; for each string leaf with min_len/max_len the lengths around them"""
+    out = []
+    tn = typed_nodes(b, root_ty, root)
+    for idx, (ty, n) in enumerate(tn):
+        if ty['k'] != 'prim' or n['x'] is None or any(k == XSI_NIL for k, _ in n['a']):
+            continue
+        p = ty['p']
+        lits = []
+        if p['t'] == 'int':
+            for f in ('ge', 'gt', 'le', 'lt'):
+                if p.get(f) is not None:
+                    lits += [(str(int(p[f]) + d), '%s%+d' % (f, d)) for d in (-1, 0, 1)]
+        elif p['t'] == 'str' and not p['values']:
+            ch = chr(p['pat']['ranges'][0][0]) if p['pat'] else 'a'
+            for f, v in (('min', p['min']), ('max', p['max'])):
+                if v:
+                    lits += [(ch * (v + d), '%s_len%+d' % (f, d)) for d in (-1, 0, 1) if v + d >= 0]
+        for s, what in lits:
+            doc = copy.deepcopy(root)
+            tgt = typed_nodes(b, root_ty, doc)[idx][1]
+            tgt['x'] = cps(s) if s else None
+            out.append((doc, 'boundary:%s:%s' % (p['t'], what)))
+            if len(out) >= cap:
+                return out
+    return out
+
+
+def mutate_enum(rng, b, root_ty, root, vt):
+    """replace the literal of one enumerated (values=) leaf by another member / by a conformant non-member"""
+    doc = copy.deepcopy(root)
+    tn = [(ty, n) for ty, n in typed_nodes(b, root_ty, doc)
+          if ty['k'] == 'prim' and _pkey(ty['p']) in vt and n['x'] is not None and not any(k == XSI_NIL for k, _ in n['a'])]
+    if not tn:
+        return None
+    ty, n = rng.choice(tn)
+    members = vt[_pkey(ty['p'])]
+    if rng.random() < 0.4:
+        v, tag = rng.choice(members), 'enum-member'
+    else:
+        v, tag = None, 'enum-nonmember'
+        for _ in range(8):
+            c = xb.gen_prim_val(rng, ty['p'])
+            if c is not None and c not in members:
+                v = c
+                break
+        if v is None:
+            return None
+    cls = _ORIG_BUILD_PRIM(b, {k: x for k, x in ty['p'].items() if not k.startswith('_')}, xb.default_occ())
+    from spyne.protocol.xml import XmlDocument
+    n['x'] = cps(XmlDocument().to_unicode(cls, xb.to_native_one(b, ty, v)))
+    return doc, tag + ':' + ty['p']['t']
+
+
 def mutate(rng, b, root_ty, root):
     """one structure-aware mutation of a request body; returns (node, tag) or None"""
     doc = copy.deepcopy(root)
@@ -604,16 +798,20 @@ def xs_type_of(p):
     return _XS_OF.get(t, 'string')
 
 
-def doc_in_domain(b, ty, node):
-    """is every leaf literal of the document inside the recognisers' domain; no xsi:type anywhere"""
+def doc_in_domain(b, ty, node, vt=None):
+    """is every leaf literal of the document inside the recognisers' domain; no xsi:type anywhere. At a member
+    with `values` on a non-string primitive only canonical literals are in the domain: libxml2 compares
+    enumerations in the value space ('05' matches 5), the reference validator compares the literals"""
     if any(k == XSI_TYPE for k, _ in node['a']):
         return False
     if ty is None:
-        return all(doc_in_domain(b, None, c) for c in node['c'])
+        return all(doc_in_domain(b, None, c, vt) for c in node['c'])
     if ty['k'] == 'prim':
         s = uncps(node['x']) if node['x'] is not None else ''
-        return lex_domain(xs_type_of(ty['p']), s) and all(doc_in_domain(b, None, c) for c in node['c'])
-    return all(doc_in_domain(b, ct, c) for c, ct in match_children(b, ty, node))
+        if vt and _pkey(ty['p']) in vt and s != '' and not canonical_literal(b, ty['p'], s):
+            return False
+        return lex_domain(xs_type_of(ty['p']), s) and all(doc_in_domain(b, None, c, vt) for c in node['c'])
+    return all(doc_in_domain(b, ct, c, vt) for c, ct in match_children(b, ty, node))
 
 
 def soft_domain(b, ty, node, msl):
@@ -694,6 +892,13 @@ def facet_universes():
         ('str pat', _prim('str', pat={'ranges': [[97, 99], [48, 57]], 'min': 2, 'max': 4}), 'ok'),
         ('str pat min>max', _prim('str', pat={'ranges': [[97, 99]], 'min': 3, 'max': 2}), 'user'),
         ('str values+len', _prim('str', max=2, values=[cps('abcdef'), cps('a')]), 'ok'),
+        ('int values', dict(_prim('int', ge='-3'), _values=[{'i': '1'}, {'i': '5'}, {'i': '-3'}]), 'ok'),
+        ('i8 values', dict(_prim('int', kind='i8'), _values=[{'i': '7'}, {'i': '-128'}]), 'ok'),
+        ('date values', dict(_prim('date'), _values=[{'date': [2020, 1, 2]}, {'date': [1, 1, 1]}]), 'ok'),
+        ('time values', dict(_prim('time'), _values=[{'time': [1, 2, 3, 0]}, {'time': [1, 2, 3, 5]}]), 'ok'),
+        ('dt values', dict(_prim('dt'), _values=[{'dt': [2020, 1, 2, 3, 4, 5, 0, None]}, {'dt': [2020, 1, 2, 3, 4, 5, 6, -289]}]), 'ok'),
+        ('dur values', dict(_prim('dur'), _values=[{'dur': '1800000000'}, {'dur': '0'}, {'dur': '-86400500000'}]), 'ok'),
+        ('bool values', dict(_prim('bool'), _values=[{'b': True}]), 'spyne-enum-bool'),
     ]
     out = []
     for i, (label, p, cls) in enumerate(cases):
@@ -717,8 +922,12 @@ def cross_ns_universe(rng, idx):
 
 # ====================================================================================== run
 def classify_compile_error(msg):
+    if "}enumeration'" in msg and 'is not a valid value' in msg:
+        return 'enumeration-literal-not-in-lexical-space'
     if 'is not a valid value of the atomic type' in msg:
         return 'facet-outside-base-type'
+    if "The facet 'enumeration' is not allowed" in msg:
+        return 'enumeration-on-boolean'
     if 'It is an error for both' in msg:
         return 'inclusive-and-exclusive-bound'
     if 'has to be' in msg:
@@ -799,7 +1008,7 @@ def run(ctx):
         with warnings.catch_warnings():
             warnings.simplefilter('ignore')
             try:
-                b = xb.build_classes(u)
+                b = build_classes(u)
                 app, _ = xb.make_app(b, 'xml', None)
                 xb.finish_built(b, app)
             except Exception as e:
@@ -809,7 +1018,7 @@ def run(ctx):
         ctx.case({'facets': label}, True)
         ctx.hit('facet-universe:%s:%s' % (cls, 'compiles' if ok else 'refused'))
         ask(dict(op='gen', **app_json(b, app)), (real_schema_canon(app), ok), 'gen', {'universe': u, 'label': label})
-        if not ok and cls.startswith('spyne'):
+        if not ok and (cls.startswith('spyne') or cls == 'ok'):
             kind = classify_compile_error(why)
             ctx.finding('compile:' + kind, 'the schema spyne publishes for %s is refused by libxml2: %s' % (label, why),
                         {'kind': 'compile', 'universe': u, 'label': label, 'error': why})
@@ -823,12 +1032,16 @@ def run(ctx):
     for ui in range(n_univ + n_cross):
         cross = ui >= n_univ
         u = cross_ns_universe(rng, ui) if cross else xb.gen_universe(rng, ui)
+        add_values(rng, u)
         with warnings.catch_warnings():
             warnings.simplefilter('ignore')
-            b = xb.build_classes(u)
+            b = build_classes(u)
             app0, _ = xb.make_app(b, 'xml', None)
             xb.finish_built(b, app0)
         A = app_json(b, app0)
+        vt = dict((_pkey(p), vals) for p, vals in A['values'])
+        for p, vals in A['values']:
+            ctx.hit('values-on:' + p['t'])
         ok, vs = compile_real(app0)
         ctx.case({'universe': u['idx'], 'classes': [(c['name'], c['ns'], c['base']) for c in u['classes']]}, len(u['classes']) > 1)
         ctx.hit('universe:%s' % ('cross-ns' if cross else 'plain'))
@@ -859,6 +1072,8 @@ def run(ctx):
                     ctx.hit('skip:unsatisfiable-facets')
                     continue
                 args, rets = call
+                args = [enforce_values(rng, t, v, vt) for (_, t), v in zip(in_ty['fields'], args)]
+                rets = [enforce_values(rng, t, v, vt) for (_, t), v in zip(out_ty['fields'], rets)]
                 if rng.random() < 0.15:
                     args = [lengthen(rng, t, v) for (_, t), v in zip(in_ty['fields'], args)]
                     rets = [lengthen(rng, t, v) for (_, t), v in zip(out_ty['fields'], rets)]
@@ -866,6 +1081,9 @@ def run(ctx):
                 for poly in (False, True):
                     a2 = [polymorphise(rng, b, t, v) for (_, t), v in zip(in_ty['fields'], args)] if poly else args
                     r2 = [polymorphise(rng, b, t, v) for (_, t), v in zip(out_ty['fields'], rets)] if poly else rets
+                    if poly:
+                        a2 = [enforce_values(rng, t, v, vt, b.fields_of) for (_, t), v in zip(in_ty['fields'], a2)]
+                        r2 = [enforce_values(rng, t, v, vt, b.fields_of) for (_, t), v in zip(out_ty['fields'], r2)]
                     is_poly = poly and (a2 != args or r2 != rets)
                     if poly and not is_poly:
                         continue
@@ -930,7 +1148,7 @@ def run(ctx):
                             # T2: the reference validator agrees that both are valid (documents without xsi:type)
                             for body, ty in ((req_body, in_ty), (resp_body, out_ty)):
                                 nd = xb.node_of(body)
-                                if doc_in_domain(b, ty, nd):
+                                if doc_in_domain(b, ty, nd, vt):
                                     valid_docs.append((ty, nd, 'emitted'))
                     if not poly:
                         # hypotheses of the theorem on this value (model side)
@@ -950,6 +1168,21 @@ def run(ctx):
                     if m2 is not None:
                         m = (m2[0], m[1] + '+' + m2[1])
                 muts.append((in_ty, m[0], m[1]))
+            if base_docs:
+                muts += [(in_ty, d, tag) for d, tag in boundary_docs(b, *base_docs[0])]
+            soft_ok_base = {}
+            for _ in range((n_mut // 2) if (base_docs and vt) else 0):
+                bi = rng.randrange(len(base_docs))
+                ty, nd = base_docs[bi]
+                if bi not in soft_ok_base:
+                    # the unmutated document must be accepted by the soft validator too (it can refuse an emitted
+                    # document for reasons of its own, e.g. an empty byte string read back as None)
+                    soft_ok_base[bi] = soft_outcome(xb.run_request(b, apps[('xml', 'soft', False)][1], xb.to_bytes(nd))) == 'ok'
+                if not soft_ok_base[bi]:
+                    continue
+                m = mutate_enum(rng, b, ty, nd, vt)
+                if m is not None:
+                    muts.append((in_ty, m[0], m[1]))
             group = [(ty, nd, tag) for ty, nd, tag in valid_docs if ty is in_ty] + muts
             if not group:
                 continue
@@ -969,9 +1202,24 @@ def run(ctx):
                 if hook != lx:
                     ctx.finding('hook-differs', 'the validation hook of XmlDocument(validator=lxml) and the compiled schema disagree',
                                 {'kind': 'doc', 'universe': u, 'method': mname, 'doc': nd, 'tag': tag})
-                indom = doc_in_domain(b, ty, seen) and soft_domain(b, ty, seen, ctx.facts08['intMaxStrLen'])
+                indom = doc_in_domain(b, ty, seen, vt) and soft_domain(b, ty, seen, ctx.facts08['intMaxStrLen'])
                 docs.append(seen)
-                impls.append({'lxml': lx, 'soft': soft_outcome(rs), 'served_lxml': soft_outcome(rl), 'tag': tag, 'indom': indom})
+                impls.append({'lxml': lx, 'soft': soft_outcome(rs), 'served_lxml': soft_outcome(rl), 'tag': tag, 'indom': indom,
+                              'values': bool(vt)})
+                if tag.startswith('enum-'):
+                    # T3 on the real code: a declared value is accepted, a non-member rejected, by both validators
+                    want = tag.startswith('enum-member')
+                    ctx.hit('values:%s' % tag)
+                    rep = {'kind': 'doc', 'universe': u, 'method': mname, 'doc': nd, 'tag': tag,
+                           'observed': {'lxml': lx, 'soft': soft_outcome(rs)}}
+                    if lx != want:
+                        ctx.finding('values:lxml-%s:%s' % ('rejects-member' if want else 'accepts-non-member', tag.split(':')[1]),
+                                    'schema validation %s a %s of the declared values' % (
+                                        'accepts' if lx else 'rejects', 'member' if want else 'non-member'), rep)
+                    if (soft_outcome(rs) == 'ok') != want:
+                        ctx.finding('values:soft-%s:%s' % ('rejects-member' if want else 'accepts-non-member', tag.split(':')[1]),
+                                    'soft validation %s a %s of the declared values' % (
+                                        'accepts' if soft_outcome(rs) == 'ok' else 'rejects', 'member' if want else 'non-member'), rep)
                 ctx.case({'u': u['idx'], 'm': mname, 'doc': seen}, node_leaves(seen) >= 2)
                 ctx.hit('doc:%s' % tag.split(':')[0].split('+')[0])
                 ctx.hit('verdict:lxml=%s,soft=%s' % ('accept' if lx else 'reject', soft_outcome(rs)))
@@ -1016,13 +1264,15 @@ def run(ctx):
                     if wf_of.get(case['universe']['idx']) and mo['denote'] != mo['valid']:
                         ctx.disagree('valid-vs-denote', rep, mo['valid'], mo['denote'])
                     # T2: the soft decoder model (build-XML's) == the real soft validator, verdict only
+                    # (it has no `values` on non-string primitives: universes that declare them are compared on the
+                    # real code, see 'values:*')
                     msoft = mo['soft'].split(':')[0]
-                    if msoft != im['soft']:
+                    if not im['values'] and msoft != im['soft']:
                         ctx.disagree('soft', rep, im['soft'], mo['soft'])
                 else:
                     ctx.hit('doc-outside-lexical-domain')
                 # T3: on the common form the two validators of the real code reach the same verdict
-                if mo['common'] and im['indom'] and wf_of.get(case['universe']['idx']):
+                if mo['common'] and im['indom'] and not im['values'] and wf_of.get(case['universe']['idx']):
                     ctx.hit('common-form:%s' % ('accept' if im['lxml'] else 'reject'))
                     ctx.cov['common_form_docs'] = ctx.cov.get('common_form_docs', 0) + 1
                     if im['lxml'] != (im['soft'] == 'ok'):
@@ -1116,7 +1366,7 @@ def replay(ctx, obj):
         return 0
     with warnings.catch_warnings():
         warnings.simplefilter('ignore')
-        b = xb.build_classes(u)
+        b = build_classes(u)
         app0, _ = xb.make_app(b, 'xml', None)
         xb.finish_built(b, app0)
     ok, vs = compile_real(app0)
